@@ -72,13 +72,13 @@ PROPS = {
     },
     "C08": {
         "rule": "1..4 rounds of 1..6 concurrent connections against Http::Endpoint (75 %) or a raw Tcp::Listener (25 %), client behaviour drawn per "
-                "connection from 21 kinds (orderly, close mid-request, half-close, RST idle / with unread data / with pending writes, silence, partial "
+                "connection from 23 kinds (orderly, close mid-request, half-close, RST idle / with unread data / with pending writes, silence, partial "
                 "request then silence, giving up near the idle time-out, stalled reader across idle scans, response time-outs armed/disarmed, file "
                 "responses completed or aborted, replies from another thread aborted, never answered, chunked streams); thread stalls injected; " + NONTRIVIAL,
         "probes_expected": ["behaviour-" + b for b in ["orderly", "close-mid-request", "half-close", "rst-idle", "rst-unread", "rst-pending", "silence",
                             "partial-then-silence", "tmo", "tmoreply", "file", "file-abort", "async-abort", "never-close", "stream",
                             "silence-close-near-timeout", "silence-abort-near-timeout", "stall-beyond-timeout",
-                            "abandon-at-once-close", "abandon-at-once-abort", "abandon-at-once-half-close"]],
+                            "abandon-at-once-close", "abandon-at-once-abort", "abandon-at-once-half-close", "tmo-then-close", "tmo-then-abort"]],
         "assumptions": ["the descriptor census is taken after all clients are gone and the longest time-out plus 1.5 s have elapsed"],
         "quick": {"batches": [("c08_lifecycle", "plain", 15000), ("c08_moved_timeout", "plain", 16), ("c08_lifecycle", "asan", 1500), ("c08_lifecycle", "tsan", 500)], "chunk": 100},
         "thorough": {"batches": [("c08_lifecycle", "plain", 80000), ("c08_moved_timeout", "plain", 64), ("c08_lifecycle", "asan", 8000), ("c08_lifecycle", "tsan", 8000)], "chunk": 200},
@@ -99,10 +99,11 @@ PROPS = {
         "rule": "1..3 connections x 1..8 writes (sizes 0..256 KiB, raw or file buffers, issued from the event-loop thread or an application thread) "
                 "against per-connection socket buffers/segment sizes/latencies and reader pacing drawn per run; short writes, would-block, spurious "
                 "EAGAIN, EINTR and per-call caps injected by the simulated kernel; " + NONTRIVIAL,
-        "probes_expected": ["eagain-branch", "short-write", "write-from-foreign-thread", "file-buffer", "file-buffer-with-would-block"],
+        "probes_expected": ["eagain-branch", "short-write", "write-from-foreign-thread", "file-buffer", "file-buffer-with-would-block",
+                            "input-without-write-while-writes-pending", "http-size", "http-async", "http-file", "http-stream"],
         "assumptions": ["liveness is judged 20 simulated seconds beyond three times what the reader's own pace needs"],
-        "quick": {"batches": [("c06_writes", "plain", 8000), ("c06_small", "plain", 10000), ("c06_small", "tsan", 3000)], "chunk": 100},
-        "thorough": {"batches": [("c06_writes", "plain", 150000), ("c06_small", "plain", 150000), ("c06_small", "tsan", 30000), ("c06_small", "asan", 30000)], "chunk": 500},
+        "quick": {"batches": [("c06_writes", "plain", 8000), ("c06_small", "plain", 10000), ("c06_http", "plain", 8000), ("c06_small", "tsan", 3000), ("c06_http", "tsan", 800)], "chunk": 100},
+        "thorough": {"batches": [("c06_writes", "plain", 150000), ("c06_small", "plain", 150000), ("c06_http", "plain", 150000), ("c06_small", "tsan", 30000), ("c06_small", "asan", 30000), ("c06_http", "tsan", 15000), ("c06_http", "asan", 15000)], "chunk": 500},
     },
     "C07": {
         "rule": "one worker; connection 0 requests 1..4 responses larger than its buffers and stops reading for 0.2..3 s; 1..3 neighbour connections "
